@@ -525,3 +525,32 @@ def policy_grid(bases=("p3", "p4", "p5", "n4:1", "n5:1", "n4k", "n5w")):
                                 res.append({"cfg": cfg, "ops": [{"ip": "1.2.3.4", "base": b, "premode": "-", "muts": [],
                                                                  "buf": "=", "age": 0}]})
     return res
+
+
+# ----------------------------------------------------------------------------
+# ./check Cxx --replay <file>: run only the input recorded in a replay file
+
+def scenario_of_line(t):
+    """inverse of line_of (tokens without the case index)"""
+    cfg = {"deny_action": t[1], "allow_action": t[2], "deny": [] if t[3] == "-" else t[3].split(","),
+           "allow": [] if t[4] == "-" else t[4].split(","), "cache": int(t[5]), "cutoff": int(t[6]), "require_nts": t[7],
+           "accepted": t[8], "stratum": int(t[9]), "root_delay": int(t[10]), "clock_fail": int(t[11])}
+    ops = []
+    for k in range(int(t[12])):
+        o = t[13 + 6 * k:19 + 6 * k]
+        ops.append({"ip": o[0], "base": o[1], "premode": o[2], "muts": [] if o[3] == "-" else o[3].split(","),
+                    "buf": o[4] if o[4] == "=" else int(o[4]), "age": int(o[5])})
+    return {"kind": "srv", "cfg": cfg, "ops": ops}
+
+
+def replay_tokens():
+    """tokens of the harness input stored in the replay file named after --replay, or None"""
+    import json
+    import sys
+    if "--replay" not in sys.argv:
+        return None
+    j = json.load(open(sys.argv[sys.argv.index("--replay") + 1]))
+    line = j.get("replay", {}).get("harness_input")
+    if not line:
+        return []
+    return line.split()[1:]
